@@ -103,14 +103,36 @@ theorem Fin.mono {scripts : List (List Op)} {s s' : St} {i : Nat} {p p' : Proc} 
   obtain ⟨j, k, h⟩ := h
   exact ⟨j, k, resultOf'_mono hp hF h⟩
 
-/-- no new successful store unless the step is the final release of a store -/
-theorem Fin.back {scripts : List (List Op)} {s s' : St} {i : Nat} {p p' : Proc} (hp : s.procs[i]? = some p)
-    (hF : StepA s s' i p p') (hpc : p.pc ≠ .sRel) {g t : Nat} (h : Fin scripts s' g t) : Fin scripts s g t := by
-  obtain ⟨j, k, h⟩ := h
+/-- no new successful *store* unless the step is the final release of a store (the only other step that records `ok` is a
+`close`, and then the operation in progress is `close`) -/
+theorem resultOf'_back_ok {scripts : List (List Op)} {s s' : St} {i : Nat} {p p' : Proc} (hp : s.procs[i]? = some p)
+    (hF : StepA s s' i p p') (hL : LocA scripts s i p) (hpc : p.pc ≠ .sRel) {j k g t : Nat}
+    (h : resultOf' scripts s' j k = some (.store g t, .ok)) : resultOf' scripts s j k = some (.store g t, .ok) := by
   obtain ⟨l, hl, hok⟩ := hF.results
-  rcases resultOf'_back hp hF hl h with h | ⟨_, _, h6, _⟩
-  · exact ⟨j, k, h⟩
-  · exact absurd (hok (List.mem_of_getElem? h6)) hpc
+  rcases resultOf'_back hp hF hl h with h | ⟨_, h5, h6, sc, hsc, hat⟩
+  · exact h
+  · rcases hok (List.mem_of_getElem? h6) with h7 | ⟨h7, h8⟩
+    · exact absurd h7 hpc
+    · exfalso
+      subst h8
+      have hk : k = p.results.length := by
+        rcases Nat.lt_or_ge (k - p.results.length) 1 with h' | h'
+        · omega
+        · rw [List.getElem?_eq_none (by simpa using h')] at h6; cases h6
+      subst hk
+      obtain ⟨sc', hsc', hd⟩ := hL.hist
+      rw [hsc] at hsc'; cases hsc'
+      have hcur : curOp p = some .close := by simp [curOp, h7]
+      rw [hcur] at hd
+      have : (sc.drop p.results.length)[0]? = some Op.close := by rw [hd]; rfl
+      rw [List.getElem?_drop, Nat.add_zero, hat] at this
+      cases this
+
+theorem Fin.back {scripts : List (List Op)} {s s' : St} {i : Nat} {p p' : Proc} (hp : s.procs[i]? = some p)
+    (hF : StepA s s' i p p') (hL : LocA scripts s i p) (hpc : p.pc ≠ .sRel) {g t : Nat} (h : Fin scripts s' g t) :
+    Fin scripts s g t := by
+  obtain ⟨j, k, h⟩ := h
+  exact ⟨j, k, resultOf'_back_ok hp hF hL hpc h⟩
 
 /-! ## the history layer -/
 
@@ -217,7 +239,7 @@ theorem LocC2.frame {scripts : List (List Op)} {s s' : St} {i j : Nat} {p p' q :
   constructor
   · intro h'; exact stored'_mono hS (h.postSt h')
   · intro h' t hfin
-    refine h.noFin h' t (hfin.back hp hF ?_)
+    refine h.noFin h' t (hfin.back hp hF hAp ?_)
     intro hpc
     have h1 : s.lock = some j := hAq.lock.1 (by unfold dep; cases hq : q.pc <;> simp_all [midStore])
     have h2 : s.lock = some i := hAp.lock.1 (by simp [dep, hpc])
